@@ -584,6 +584,31 @@ func (s *Server) serveWebsiteHeadObject(w http.ResponseWriter, r *http.Request) 
 	w.WriteHeader(http.StatusOK)
 }
 
+// websiteMayReadKey asks the authorizer whether the caller may read the given
+// key of the bucket through the website endpoint.
+func (s *Server) websiteMayReadKey(ctx context.Context, r *http.Request, bucketName storage.BucketName, key storage.ObjectKey) bool {
+	operation := authorization.OperationGetObject
+	if r.Method == http.MethodHead {
+		operation = authorization.OperationHeadObject
+	}
+	isAuthenticated, _ := ctx.Value(authentication.IsAuthenticatedContextKey{}).(bool)
+	var accessKeyId *string
+	if isAuthenticated {
+		keyIdStr, _ := ctx.Value(authentication.AccessKeyIdContextKey{}).(string)
+		accessKeyId = &keyIdStr
+	}
+	bucketStr := bucketName.String()
+	keyStr := key.String()
+	allowed, err := s.requestAuthorizer.AuthorizeRequest(ctx, &authorization.Request{
+		Operation:     operation,
+		Authorization: authorization.Authorization{AccessKeyId: accessKeyId},
+		Bucket:        &bucketStr,
+		Key:           &keyStr,
+		HttpRequest:   makeAuthorizationHTTPRequest(r),
+	})
+	return err == nil && allowed
+}
+
 // serveErrorDocument tries to serve the configured error document for the bucket.
 // If no error document is configured or the error document itself cannot be found,
 // it falls back to a default HTML error page.
@@ -599,6 +624,13 @@ func (s *Server) serveErrorDocument(w http.ResponseWriter, r *http.Request,
 	ctx := r.Context()
 	errorKey, err := storage.NewObjectKey(*config.ErrorDocumentKey)
 	if err != nil {
+		s.writeHTMLError(w, statusCode, code, message)
+		return
+	}
+
+	// The error document is an object like any other: its content is only
+	// returned to callers that are allowed to read it.
+	if !s.websiteMayReadKey(ctx, r, bucketName, errorKey) {
 		s.writeHTMLError(w, statusCode, code, message)
 		return
 	}
